@@ -93,6 +93,9 @@ def BHJM_magnet_tetrahedron(
         BHJM[~mask_inside] = 0
         return BHJM / MU0
 
+    if field == "B":  # same vertex order as for J and M: the masks must agree
+        mask_inside = point_inside(observers, vertices, in_out)
+
     vertices = check_chirality(vertices)
 
     tri_vertices = np.concatenate(
@@ -122,7 +125,6 @@ def BHJM_magnet_tetrahedron(
         return BHJM
 
     if field == "B":
-        mask_inside = point_inside(observers, vertices, in_out)
         BHJM[mask_inside] += polarization[mask_inside]
         return BHJM
 
